@@ -21,7 +21,10 @@ from vp.ob import ob, product
 
 kit.register("symta", "symtb", "symtc", "symv", "symw", "symt")
 
-RECORDS = [r for r in csv.reader(io.StringIO(kitpaths.DATA))]
+# the kit's 5 records (quoted delimiter, embedded newline) with a backslash inside and at the end of a cell: whatever a member
+# collected must come back unchanged from its data.csv (no escape character is in play on either side)
+DATA = 'h1,h2\n"a,1",b\nc,"d\ne"\nf\\x,g\nh,i\\\n'
+RECORDS = [r for r in csv.reader(io.StringIO(DATA))]
 ND = len(RECORDS)
 
 CHAIN = {
@@ -55,7 +58,7 @@ ENC = ["csvpath/csvpaths.py:CsvPaths.collect_paths/_load_csvpath (source-mode pr
     "O1-source-mode-chain",
     pre=["{LO} <= ta <= {HI} and {LO} <= tb <= {HI} and {LO} <= tc <= {HI}"],
     post="_ == ''",
-    bound="chain of 3 filter csvpaths over a 5-record file, source-mode preceding on the suffix given by the shard; the three "
+    bound="chain of 3 filter csvpaths over a 5-record file (cells with a quoted delimiter, an embedded newline, backslashes), source-mode preceding on the suffix given by the shard; the three "
     "thresholds symbolic LO..HI (empty intermediate results included); each member's data.csv against a fold; a preceding member's "
     "manifest names its predecessor's data.csv",
     outside="chains of 4; symbolic cell text (solver-driven walk over the threshold box)",
@@ -67,7 +70,7 @@ def source_chain(kind: str, ta: int, tb: int, tc: int) -> str:
     kit.HOLD.update(symta=ta, symtb=tb, symtc=tc)
     o0, o1, o2 = chain_oracle(kind, ta, tb, tc)
     with NoTracing():
-        root, cs = kitpaths.env({"g": CHAIN[kind]}, policy="raise, collect, print")
+        root, cs = kitpaths.env({"g": CHAIN[kind]}, policy="raise, collect, print", data=DATA)
     problems = []
     raised = None
     try:
